@@ -309,9 +309,12 @@ def native_replay(h, cfg=None, timeout=2400):
                            cwd=d, capture_output=True, text=True, env=env, timeout=timeout)
         txt = q.stdout + q.stderr
         out["output"] = txt[-2500:]
-        m = re.search(r"test result: (\w+)\. (\d+) passed; (\d+) failed", txt)
-        if m:
-            out["native_failed"] = int(m.group(3)) > 0
+        ms = re.findall(r"test result: (\w+)\. (\d+) passed; (\d+) failed", txt)
+        ran = sum(int(a) + int(b) for _, a, b in ms)
+        if ran > 0:
+            out["native_failed"] = any(int(b) > 0 for _, a, b in ms)
+        elif "panicked at" in txt:
+            out["native_failed"] = True
     except subprocess.TimeoutExpired:
         out["output"] = "timeout"
     finally:
